@@ -53,7 +53,7 @@ def InitCall.expand : InitCall → List FOp
   | .agentReady => [⟨2, .walk⟩]
   | .runtimeRestoreReady => [⟨3, .walk⟩]
   | .cancelWithError e => [⟨0, .cancel e⟩, ⟨1, .cancel e⟩, ⟨2, .cancel e⟩, ⟨3, .cancel e⟩]
-  | .clear => [⟨0, .clear⟩, ⟨1, .clear⟩, ⟨2, .clear⟩, ⟨3, .clear⟩]
+  | .clear => [⟨0, .clear⟩, ⟨1, .clear⟩, ⟨2, .clear⟩, ⟨2, .setCount 65535⟩, ⟨3, .clear⟩]   -- the agents-ready gate expects the maximum again
 
 inductive InvokeCall where
   | initializeBarriers | setAgentsReadyCount (n : Nat)
